@@ -3562,22 +3562,25 @@ class Association(threading.Thread):
             return
 
         # N-EVENT-REPORT requests are served in a thread of their own, maybe
-        #   while another request is being served (see
+        #   while the reactor is serving another request (see
         #   DIMSEServiceProvider.receive_primitive()): the C-CANCEL requests
-        #   received for that one must be left alone
-        clear_cancel = not isinstance(msg, N_EVENT_REPORT)
+        #   received for that one and the reactor's paused flag must be left
+        #   alone
+        in_reactor = not isinstance(msg, N_EVENT_REPORT)
 
         # Run corresponding Service Class in SCP mode
         try:
             # Clear out any C-CANCEL requests received beforehand
-            if clear_cancel:
+            if in_reactor:
                 self.dimse.cancel_req = {}
             # In case the SCP calls one of the send_* methods
-            self._is_paused = True
+            if in_reactor:
+                self._is_paused = True
             service_class.SCP(msg, context)
-            self._is_paused = False
+            if in_reactor:
+                self._is_paused = False
             # Clear out any unacted upon requests received during
-            if clear_cancel:
+            if in_reactor:
                 self.dimse.cancel_req = {}
         except NotImplementedError:
             # SCP isn't implemented
